@@ -108,6 +108,7 @@ fn roundtrip(c: &SymCase, obs: &mut Obs) -> Result<(), String> {
     obs.classify(ds.size >= 100, ">= 100 chambers");
     obs.classify(c.counters != (1, 1), "counters != 1.1");
     obs.class(&format!("dim {}", ds.dim));
+    obs.classify(!ds.is_connected(), "disconnected");
     Ok(())
 }
 
@@ -471,6 +472,8 @@ pub fn run(ctx: &mut Ctx) {
     }
     ctx.run_prop(&SUB_ROUNDTRIP, || sym_case(prop_oneof![random_symbol(2, 8..=40), random_symbol(3, 6..=40), random_symbol(1, 2..=40)].boxed()), n / 3);
     ctx.run_prop(&SUB_ROUNDTRIP, || sym_case(prop_oneof![random_symbol_any(2, 90..=300), random_symbol_any(3, 90..=300)].boxed()), n / 30);
+    // any dimension 1..=6, arbitrary involutions (the text form does not depend on commutation)
+    ctx.run_prop(&SUB_ROUNDTRIP, || sym_case(prop_oneof![unconstrained_symbol(1..=6, 1..=14), unconstrained_symbol(4..=6, 15..=120)].boxed()), n / 3);
 
     // --- strings
     let m = t.pick(40_000u32, 1_500_000u32);
